@@ -211,7 +211,38 @@ def run(prog, rep, tier):
     contains = [c for c in rm.live_calls() if c.d.endswith("HashSet::<T, S>::contains") or (c.d.endswith("::contains") and "HashSet" in c.d)]
     recvs = [c for c in rm.live_calls() if c.d.endswith("::recv") and "crossbeam_channel::Select" in c.d and "SelectedOperation" not in c.d]
     rep.examined(R13, rm.path + "|skip", sample={"contains_calls": len(contains), "select_recv_calls": len(recvs)})
-    if len(contains) != 1 or len(recvs) != 1:
+    filt_ok = None
+    if len(contains) == 0 and len(recvs) == 1:
+        # iterator form: `for (..) in chans.iter().filter(|(id, _)| !filter.contains(id)) .. { select.recv(chan) }`
+        # the registered channel comes from next() of a chain that contains Iterator::filter with a closure of
+        # this function; that closure returns the negation of HashSet::contains(filter, its item's key)
+        import re as _re13
+        flt = [c for c in rm.live_calls() if (c.o or c.d).endswith("Iterator::filter") or c.d.endswith("::filter")]
+        chan_calls = set(x[2].split("::")[-1] for x in rm.origins(recvs[0].args[1]) if x[0] == "call")
+        if len(flt) == 1 and "next" in chan_calls and rm.dominates(flt[0].bb, recvs[0].bb):
+            m_ = _re13.search(r"\{closure@([^ :]+:\d+:\d+)", str(flt[0].callee.get("ga")))
+            cl_ = None
+            for cb_ in prog.closures_in(rm.path):
+                if m_ and cb_.j.get("span", "").startswith(m_.group(1)):
+                    cl_ = cb_
+            if cl_ is not None:
+                cc_ = [c for c in cl_.live_calls() if c.d.endswith("::contains") and "HashSet" in c.d]
+                if len(cc_) == 1:
+                    # polarity: the closure's result is Not(contains(..))
+                    neg = False
+                    for bb_ in sorted(cl_.live):
+                        for st_ in cl_.stmts(bb_):
+                            if st_[0] == "=" and st_[1] == [0] and st_[2][0] == "un" and st_[2][1] == "Not" and op_local(st_[2][2]) == cc_[0].dest[0]:
+                                neg = True
+                    key_from_item = any(x[0] == "arg" and x[1] == 2 for x in cl_.origins(cc_[0].args[1]))
+                    set_from_capture = any(x[0] == "arg" and x[1] == 1 for x in cl_.origins(cc_[0].args[0]))
+                    filt_ok = neg and key_from_item and set_from_capture
+                    rep.examined(R13, rm.path + "|skip|filter-closure", sample={"closure": cl_.path, "keeps_items_not_in_the_set": neg, "key_is_the_item": key_from_item, "set_is_captured": set_from_capture})
+        if filt_ok is False:
+            rep.violation(R13, rm.path + "|skip", "recv_many_chan: the filter closure of the channel iterator does not keep exactly the channels whose PathId is NOT in the filter set")
+    if filt_ok:
+        pass
+    elif len(contains) != 1 or len(recvs) != 1:
         rep.violation(R13, rm.path + "|skip", "recv_many_chan: expected one filter.contains() test guarding one select.recv() registration (found %d, %d)" % (len(contains), len(recvs)))
     else:
         cc, rc = contains[0], recvs[0]
